@@ -962,7 +962,7 @@ fn scenarios(prop: &str, thorough: bool) -> Vec<Scen> {
                 }
             }
             // beyond the small scope: 4 and 5 basis functions / parameters, and sample counts around block sizes
-            for (fam, n) in [(Family::ExpN(4), 12usize), (Family::ExpN(5), 14), (Family::Exp2Off, 64), (Family::Exp2Off, 257), (Family::OLeary, 600), (Family::Exp1Off, 1025)] {
+            for (fam, n) in [(Family::ExpN(4), 12usize), (Family::ExpN(5), 14), (Family::Exp2Off, 64), (Family::Exp2Off, 257), (Family::OLeary, 600), (Family::Exp1Off, 1025), (Family::Exp2Off, 4100), (Family::Exp1Off, 8200)] {
                 for par in [false, true] {
                     if prop == "C11" && !par {
                         continue;
@@ -971,7 +971,8 @@ fn scenarios(prop: &str, thorough: bool) -> Vec<Scen> {
                         if f32_ && matches!(fam, Family::ExpN(_)) {
                             continue;
                         }
-                        if !thorough && (n > 300 || (par && f32_)) {
+                        // quick: the sizes past 4096 only for the parallel f64 problems
+                        if !thorough && ((n > 300 && n < 4000) || (n > 4000 && (!par || f32_ || n > 5000)) || (par && f32_)) {
                             continue;
                         }
                         for (api, ycols) in [(Api::Single, vec![YCol::Noisy]), (Api::Mrhs, vec![YCol::Noisy, YCol::Off])] {
@@ -1000,6 +1001,28 @@ fn scenarios(prop: &str, thorough: bool) -> Vec<Scen> {
                                 s.alphas = s.alphas.iter().filter(|a| a.iter().all(|t| *t > 0.01)).map(|a| a.iter().map(|t| t * scale).collect()).collect();
                                 s.xscale = scale;
                                 v.push(s);
+                            }
+                        }
+                    }
+                }
+            }
+            // the state right after build() is the delicate one: (nearly) equal decay constants under a user threshold come FIRST
+            for f32_ in [false, true] {
+                for par in [false, true] {
+                    if prop == "C11" && !par {
+                        continue;
+                    }
+                    for prov in provs {
+                        for eps in [EpsKind::Val(1e-3), EpsKind::Val(-1e-2), EpsKind::Default] {
+                            for (api, ycols) in [(Api::Single, vec![YCol::Noisy]), (Api::Mrhs, vec![YCol::Noisy, YCol::Off])] {
+                                if !thorough && ((prov == Prov::Built) != par || (f32_ && api == Api::Mrhs)) {
+                                    continue;
+                                }
+                                for first in [vec![2.0, 2.000001], vec![2.0, 2.0]] {
+                                    let mut s = mk(&Family::Exp2Off, 9, prov, f32_, par, api, ycols.clone(), WKind::None, eps);
+                                    s.alphas = vec![first.clone(), vec![1.0, 3.5], vec![0.75, 3.0], vec![2.0, 2.0], vec![2.0, 2.000001]];
+                                    v.push(s);
+                                }
                             }
                         }
                     }
@@ -1113,6 +1136,22 @@ fn scenarios(prop: &str, thorough: bool) -> Vec<Scen> {
                                     }
                                 }
                             }
+                        }
+                    }
+                }
+            }
+            // sample counts past block sizes of vectorised / multithreaded row operations
+            for (fam, n) in [(Family::Exp2Off, 4100usize), (Family::Exp1Off, 8200)] {
+                for par in [false, true] {
+                    for w in [WKind::Ramp, WKind::Spread, WKind::ZeroAt(4099), WKind::NegAt(4097)] {
+                        for (api, ycols) in [(Api::Single, vec![YCol::Noisy]), (Api::Mrhs, vec![YCol::Noisy, YCol::Off])] {
+                            if !thorough && (!par || n > 5000 || api == Api::Mrhs || !matches!(w, WKind::Ramp | WKind::ZeroAt(_))) {
+                                continue;
+                            }
+                            let mut s = mk(&fam, n, Prov::Hand, false, par, api, ycols, w, EpsKind::Default);
+                            s.alphas.truncate(3);
+                            s.depth = 1;
+                            v.push(s);
                         }
                     }
                 }
